@@ -76,4 +76,81 @@ theorem packetizer_measure_all (c : PkCfg) : DelMeasure (packetizer c) (fun _ =>
     left
     cases st <;> simp [packetizer, Elem.delNow, Elem.out]
 
+/-! ### Aligned Packetizer: the sink is served (W header words, then every cooperative cycle accepts a beat) -/
+
+def pkAInv (c : PkCfg) (s : PkState) : Prop :=
+  s.st ≠ .ucopy ∧ (s.st = .hdr → 1 ≤ s.count ∧ s.count < c.W)
+
+theorem packetizer_ainv_step (c : PkCfg) (ha : c.aligned = true) (hW : 1 ≤ c.W) (s : PkState) (i : In HBeat)
+    (h : pkAInv c s) : pkAInv c ((packetizer c).step s i) := by
+  obtain ⟨st, sr, cnt, fi, dd, dl⟩ := s
+  obtain ⟨iv, it, ir⟩ := i
+  obtain ⟨h1, h3⟩ := h
+  simp only at h1 h3
+  have hcm := W_le_cntMod c
+  unfold pkAInv
+  cases st with
+  | ucopy => exact absurd rfl h1
+  | idle =>
+    cases iv <;> cases ir
+    · simp [packetizer, Elem.step, ha]
+    · simp [packetizer, Elem.step, ha]
+    · simp [packetizer, Elem.step, ha]
+    · by_cases hw1 : c.W = 1
+      · simp [packetizer, Elem.step, ha, PkCfg.copy, hw1]
+      · have : (c.W == 1) = false := by simpa using hw1
+        simp [packetizer, Elem.step, ha, PkCfg.copy, this]; omega
+  | hdr =>
+    obtain ⟨h4, h5⟩ := h3 rfl
+    cases ir with
+    | false => simp [packetizer, Elem.step, ha]; omega
+    | true =>
+      by_cases hlast : cnt + 1 = c.W
+      · simp [packetizer, Elem.step, ha, PkCfg.copy, hlast]
+      · have hmod : (cnt + 1) % c.cntMod = cnt + 1 := Nat.mod_eq_of_lt (by omega)
+        simp [packetizer, Elem.step, ha, hlast, hmod]; omega
+  | acopy =>
+    simp only [packetizer, Elem.step, ha]
+    split <;> simp
+
+/-- Cycles until the sink is ready again: the header words still to be sent. -/
+def pkAMu (c : PkCfg) (s : PkState) : Nat :=
+  match s.st with
+  | .idle => c.W
+  | .hdr => c.W - s.count
+  | _ => 0
+
+theorem packetizer_acc_dec (c : PkCfg) (ha : c.aligned = true) (hW : 1 ≤ c.W) (s : PkState) (i : In HBeat)
+    (hs : pkAInv c s) (hc : Coop i) :
+    1 ≤ ((packetizer c).accNow s i).length ∨ pkAMu c ((packetizer c).step s i) < pkAMu c s := by
+  obtain ⟨hv, hr⟩ := hc
+  obtain ⟨st, sr, cnt, fi, dd, dl⟩ := s
+  obtain ⟨iv, it, ir⟩ := i
+  obtain ⟨h1, h3⟩ := hs
+  simp only at hv hr h1 h3; subst hv; subst hr
+  have hcm := W_le_cntMod c
+  cases st with
+  | ucopy => exact absurd rfl h1
+  | acopy => left; simp [packetizer, Elem.accNow, Elem.out]
+  | idle =>
+    right
+    by_cases hw1 : c.W = 1
+    · simp [packetizer, Elem.step, ha, PkCfg.copy, hw1, pkAMu]
+    · have : (c.W == 1) = false := by simpa using hw1
+      simp [packetizer, Elem.step, ha, PkCfg.copy, this, pkAMu]; omega
+  | hdr =>
+    right
+    obtain ⟨h4, h5⟩ := h3 rfl
+    by_cases hlast : cnt + 1 = c.W
+    · simp [packetizer, Elem.step, ha, PkCfg.copy, hlast, pkAMu]; omega
+    · have hmod : (cnt + 1) % c.cntMod = cnt + 1 := Nat.mod_eq_of_lt (by omega)
+      simp [packetizer, Elem.step, ha, hlast, hmod, pkAMu]; omega
+
+theorem packetizer_acceptsWithin (c : PkCfg) (ha : c.aligned = true) (hW : 1 ≤ c.W) :
+    AcceptsWithin (packetizer c) (c.W + 1) :=
+  acceptsWithin_of_measure _ (pkAInv c) (by simp [pkAInv, packetizer, PkState.reset])
+    (packetizer_ainv_step c ha hW) (pkAMu c) c.W
+    (fun s _ => by unfold pkAMu; split <;> omega)
+    (fun s i hs hc => packetizer_acc_dec c ha hW s i hs hc)
+
 end Litex.Packet
